@@ -26,5 +26,5 @@ def one(d):
         bad.append(d)
 
 with ThreadPoolExecutor(jobs) as ex:
-    list(ex.map(one, sorted(glob.glob(os.path.join(ROOT, 'seeded', 'neg_*')))))
+    list(ex.map(one, sorted(glob.glob(os.path.join(ROOT, 'seeded', 'neg_*')), reverse='--reverse' in sys.argv_backup)))
 sys.exit(1 if bad else 0)
